@@ -293,6 +293,12 @@ def run(tier, seed):
               f"{len(WEIGHT_SPECS)} weight specifications (None, 3 keywords, 7 arrays incl. rescaled by 3 / 0.01 / 1000) x {len(recipes)} seeded positive samples of 30..5000 points "
               "(EW, Weibull, log-normal, gamma; with zeros; with ties) x delta fixed and free x 'lsq'/'wlsq'",
               "distinct = (delta mode, weight specification, data set); non-trivial = at least 10 distinct non-zero observations")
+    # deterministic, seed-independent scenario: log-normal-like data for which the x-space error decreases in delta without
+    # an interior minimum (the search stops at its iteration limit)
+    sc_lsq({"kind": "lsq", "data": {"source": "lognormal", "mu": 0.44578428794310215, "sigma": 0.6614127775339556, "n": 200, "data_seed": 637324987,
+                                    "round": 1, "allow_zero": True, "zeros": 2},
+            "data_label": "fixed:lognormal-no-interior-minimum", "weights": "linear", "weights_label": "linear", "f_delta": None, "delta0": 1.0,
+            "method": "wlsq", "rescale": [], "perm_seed": 1}, rec)
     for dl, rcp in recipes:
         for wl, w in WEIGHT_SPECS:
             if isinstance(w, dict) and w["kind"] == "random" and "ties" in dl:
@@ -300,12 +306,6 @@ def run(tier, seed):
             for f_delta in (float(rng.uniform(0.6, 6.0)), None):
                 sc_lsq({"kind": "lsq", "data": rcp, "data_label": dl, "weights": w, "weights_label": wl, "f_delta": f_delta, "delta0": 1.0,
                         "method": "wlsq" if wl != "none" else "lsq", "rescale": [1000.0, 1.0 / 7.0], "perm_seed": int(rng.integers(0, 2 ** 31 - 1))}, rec)
-    # deterministic, seed-independent scenario: log-normal-like data for which the x-space error decreases in delta without
-    # an interior minimum (the search stops at its iteration limit)
-    sc_lsq({"kind": "lsq", "data": {"source": "lognormal", "mu": 0.44578428794310215, "sigma": 0.6614127775339556, "n": 200, "data_seed": 637324987,
-                                    "round": 1, "allow_zero": True, "zeros": 2},
-            "data_label": "fixed:lognormal-no-interior-minimum", "weights": "linear", "weights_label": "linear", "f_delta": None, "delta0": 1.0,
-            "method": "wlsq", "rescale": [], "perm_seed": 1}, rec)
     rec.group("weights keywords", "unknown keyword, upper/lower case", "distinct = keyword")
     for word in ("quartic", "none", ""):
         sc_keyword({"kind": "keyword", "word": word, "data": recipes[0][1]}, rec)
